@@ -256,6 +256,36 @@ def job_irrep(tier, rng):
             cnt += 1
             if not ok and bad is None:
                 bad = dict(j2=j2, trial=t)
+    # angle input, any real angles (negative, beyond one turn): D^j(a,b,g) = exp(-i a Jz) exp(-i b Jy) exp(-i g Jz) with the ladder-formula J written here
+    import scipy.linalg as _sl
+
+    def _J(j2):
+        j = j2 / 2; m = np.arange(j, -j - 1, -1)
+        jz = np.diag(m).astype(complex)
+        jp = np.zeros((j2 + 1, j2 + 1), dtype=complex)
+        for k in range(1, j2 + 1):
+            jp[k - 1, k] = np.sqrt(j * (j + 1) - m[k] * (m[k] + 1))
+        return (jp + jp.conj().T) / 2, (jp - jp.conj().T) / (2j), jz
+    angs = [(-0.7, 1.1, 0.4), (0.3 + 2 * np.pi, 0.9, -2.0), (-3 * np.pi + 0.2, 2.2, 5 * np.pi - 0.1), (0.5, 0.0, -0.5), (-1.0, np.pi, 7.0)] + [tuple(rng.uniform(-4 * np.pi, 4 * np.pi, 3) * np.array([1, 0.25, 1]) + np.array([0, np.pi / 2, 0])) for _ in range(6)]
+    for j2 in range(0, 11):
+        jx, jy, jz = _J(j2)
+        for (a, b, g) in angs:
+            b = float(np.clip(abs(b), 0, np.pi))
+            try:
+                ref = _sl.expm(-1j * a * jz) @ _sl.expm(-1j * b * jy) @ _sl.expm(-1j * g * jz)
+                Da = lie.get_su2_irrep(j2, a, b, g)
+                ok = np.abs(Da - ref).max() < 1e-9
+                Db = lie.get_su2_irrep(j2, np.array([a, 0.1]), np.array([b, 0.2]), np.array([g, 0.3]))
+                ok = ok and np.abs(Db[0] - ref).max() < 1e-9
+                # D(U)^dagger = D(U^-1): the inverse rotation has angles (-g, -b, -a) -> beta sign folded: (pi - g, b, -pi - a)
+                ok = ok and np.abs(lie.get_su2_irrep(j2, -g + np.pi, b, -a - np.pi) - ref.conj().T).max() < 1e-9
+            except Exception as ex:
+                if not from_repo(ex):
+                    raise
+                ok = False
+            cnt += 1
+            if not ok and bad is None:
+                bad = dict(j2=j2, alpha=float(a), beta=float(b), gamma=float(g), what='D(angles) vs exp(-i a Jz) exp(-i b Jy) exp(-i g Jz)')
     G = _grid()
     sel = [G[k] for k in rng.choice(len(G), size=40 if tier == 'quick' else 200, replace=False)] + [(0.0, 0.0, 4.5), (0.0, 0.0, 7.0), (1.0, np.pi, 0.3), (4.5, 0.0, 5.9 + 2 * np.pi)]
     for j2 in range(0, 11):
